@@ -2,19 +2,22 @@
   C19 — Macro attributes mean what they say, for every valid combination (PARSER part).
 
   `Attrs.lean` transcribes `parse_sync_attributes` / `parse_async_attributes`
-  (`cachelito-macro-utils/src/lib.rs`) as `parseSync` / `parseAsync : Bool → AttrList → Except Reject Parsed`
-  (the `Bool` says whether the macro crate is built with overflow checks).  The specification is written
-  independently: `Valid k l` (every name known to macro `k`, every value of the right literal kind and in
-  range) and `meaning k l` ("as written": the LAST value written for each attribute, defaults otherwise,
+  (`cachelito-macro-utils/src/lib.rs`, including the repairs 82aef8c and 1b1b026) as
+  `parseSync` / `parseAsync : AttrList → Except Reject Parsed`.  The specification is written independently:
+  `Valid k l` (every name known to macro `k`, every value of the right literal kind and in range) and
+  `meaning k l` ("as written": the LAST value written for each attribute, defaults otherwise,
   `n KB/MB/GB = n·1024^{1,2,3}`).
 
   Theorems
     T1  `parse_valid`, `parseSync_valid`, `parseAsync_valid`, `valid_compiles`, `valid_cfg`
         — every valid list is accepted with exactly its meaning; that meaning is the `Cfg` of the core cache.
     T2  `unknown_name_rejected`, `invalid_policy_rejected`, `invalid_scope_rejected`, `async_scope_rejected`,
-        `invalid_limit_rejected`, `invalid_ttl_rejected`, `invalid_max_memory_rejected`, `invalid_rejected`
-        — unknown names and invalid values do not compile (parser `Err`, spliced `compile_error!`, or panic);
-        `accepted_limit`, `accepted_ttl`, `accepted_max_memory` — conversely whatever compiles carries the
+        `invalid_limit_rejected`, `invalid_ttl_rejected`, `invalid_max_memory_rejected`,
+        `invalid_frequency_weight_rejected`, `invalid_rejected`
+        — an unknown name or an invalid value ANYWHERE in the list (overridden later or not) is rejected at
+        compile time (parser `Err` or panic); `max_memory_overflow_rejected` — sizes that do not fit in `usize`
+        are rejected whatever the build profile; `compiles_iff_ok` — nothing is left to spliced tokens;
+        `accepted_limit`, `accepted_ttl`, `accepted_max_memory` — conversely whatever is accepted carries the
         value of the last occurrence, and for `max_memory` strings that is `n·1024^k` of a `[+]digits(unit)^j` form.
     T3  `hasMaxMemory_eq_false_iff`, `hasMaxMemory_meaning`, `hasMaxMemory_default` — the textual `"None"` test is sound.
     T4  `meaning_max_memory_units`, `parse_max_memory_units` — KB/MB/GB arithmetic for every number.
@@ -22,11 +25,9 @@
   Observations reproduced by the model (examples at the end): a repeated attribute takes its last value;
   `name = 5` is silently ignored; `"1GBGB"` is 1 GB; a leading `+` is accepted; integer `frequency_weight`
   (even `0`) is accepted.
-  FINDING (`overridden_invalid_value_accepted`): an invalid `limit` / `ttl` / `max_memory` /
-  `frequency_weight` value that only splices `compile_error!` tokens is silently dropped when the same
-  attribute is written again later with a valid value — `#[cache(limit = "x", limit = 3)]` compiles.
-  FINDING (`max_memory_overflow_wraps_without_overflow_checks`): when the macro crate is built without
-  overflow checks (release profile of the user's build) `max_memory = "17179869184GB"` is accepted as `Some(0)`.
+  Regression witnesses (`Legacy.parse` = the parser before the repairs): `#[cache(limit = "x", limit = 2)]`
+  compiled (finding F9) and `max_memory = "17179869184GB"` wrapped to `Some(0)` without overflow checks
+  (finding F10); both are refuted for the repaired parser by the theorems above.
 -/
 import Cachelito.Lemmas.Attrs
 
@@ -38,27 +39,26 @@ open Cachelito Cachelito.Attrs
 
 /-! ### T1 — valid lists are accepted with their meaning -/
 
-/-- **Every valid attribute list is accepted, with exactly the values it writes.**  For both macros and
-    both build profiles: if every name is known and every value is valid, the parser returns (no `Err`, no
-    panic, no spliced `compile_error!`) the record that carries, for each attribute, the last value written
-    for it, and the default where none was written. -/
-theorem parse_valid (k : Kind) (oc : Bool) (l : AttrList) (h : Valid k l) :
-    parse k oc l = .ok (meaning k l).toParsed := by
-  have := parseLoop_meaning k oc l [] h
+/-- **Every valid attribute list is accepted, with exactly the values it writes.**  For both macros: if every
+    name is known and every value is valid, the parser returns (no `Err`, no panic) the record that carries,
+    for each attribute, the last value written for it, and the default where none was written. -/
+theorem parse_valid (k : Kind) (l : AttrList) (h : Valid k l) :
+    parse k l = .ok (meaning k l).toParsed := by
+  have := parseLoop_meaning k l [] h
   rw [meaning_nil] at this
   simpa [parse] using this
 
 /-- T1 for `#[cache(...)]` (`parse_sync_attributes`). -/
-theorem parseSync_valid (oc : Bool) (l : AttrList) (h : Valid .sync l) :
-    parseSync oc l = .ok (meaning .sync l).toParsed := parse_valid .sync oc l h
+theorem parseSync_valid (l : AttrList) (h : Valid .sync l) :
+    parseSync l = .ok (meaning .sync l).toParsed := parse_valid .sync l h
 
 /-- T1 for `#[cache_async(...)]` (`parse_async_attributes`). -/
-theorem parseAsync_valid (oc : Bool) (l : AttrList) (h : Valid .async l) :
-    parseAsync oc l = .ok (meaning .async l).toParsed := parse_valid .async oc l h
+theorem parseAsync_valid (l : AttrList) (h : Valid .async l) :
+    parseAsync l = .ok (meaning .async l).toParsed := parse_valid .async l h
 
-/-- Every valid attribute list gets through attribute parsing (none of the three failure mechanisms fires). -/
-theorem valid_compiles (k : Kind) (oc : Bool) (l : AttrList) (h : Valid k l) : compiles (parse k oc l) = true := by
-  rw [parse_valid k oc l h]; rfl
+/-- Every valid attribute list gets through attribute parsing (no failure mechanism fires). -/
+theorem valid_compiles (k : Kind) (l : AttrList) (h : Valid k l) : compiles (parse k l) = true := by
+  rw [parse_valid k l h]; rfl
 
 /-- The core-cache configuration built from a valid list: `limit`, `policy`, `ttl`, `max_memory` are the
     written values and the engine is chosen by the macro and the `scope`. -/
@@ -80,152 +80,160 @@ theorem valid_cfg (k : Kind) (l : AttrList) :
     | some s => by_cases h : s = "thread" <;> simp [h]
   · rfl
 
-/-! ### T2 — unknown names and invalid values are rejected -/
+/-! ### T2 — unknown names and invalid values are rejected, wherever they stand -/
+
+/-- a failing iteration anywhere makes the macro invocation fail -/
+theorem rejected_of_step (k : Kind) (l : AttrList) {n : String} {v : AttrVal} (hmem : (n, v) ∈ l)
+    (hstep : ∀ st, ∃ e, stepAttr k st n v = .error e) : compiles (parse k l) = false := by
+  obtain ⟨e, he⟩ := parseLoop_error_of_mem k hstep l Parsed.default hmem
+  simp [parse, he, compiles]
 
 /-- **Unknown attribute names are rejected**, wherever they stand in the list and whatever else it contains. -/
-theorem unknown_name_rejected (k : Kind) (oc : Bool) (l : AttrList) {n : String} {v : AttrVal}
-    (hmem : (n, v) ∈ l) (hn : (knownNames k).contains n = false) : compiles (parse k oc l) = false := by
-  obtain ⟨e, he⟩ := parseLoop_error_of_mem k oc (n := n) (v := v)
-    (fun st => ⟨_, stepAttr_unknown k oc st v hn⟩) l Parsed.default hmem
-  simp [parse, he, compiles]
+theorem unknown_name_rejected (k : Kind) (l : AttrList) {n : String} {v : AttrVal}
+    (hmem : (n, v) ∈ l) (hn : (knownNames k).contains n = false) : compiles (parse k l) = false :=
+  rejected_of_step k l hmem (fun st => ⟨_, stepAttr_unknown k st v hn⟩)
 
 /-- **An invalid `policy` value is rejected** (anything but a string literal naming one of the six policies). -/
-theorem invalid_policy_rejected (k : Kind) (oc : Bool) (l : AttrList) {v : AttrVal}
-    (hmem : ("policy", v) ∈ l) (hv : validPolicy v = false) : compiles (parse k oc l) = false := by
-  obtain ⟨e, he⟩ := parseLoop_error_of_mem k oc (n := "policy") (v := v)
-    (fun st => by obtain ⟨m, hm⟩ := stepAttr_policy_invalid k oc st hv; exact ⟨_, hm⟩) l Parsed.default hmem
-  simp [parse, he, compiles]
+theorem invalid_policy_rejected (k : Kind) (l : AttrList) {v : AttrVal}
+    (hmem : ("policy", v) ∈ l) (hv : validPolicy v = false) : compiles (parse k l) = false :=
+  rejected_of_step k l hmem (fun st => by obtain ⟨m, hm⟩ := stepAttr_policy_invalid k st hv; exact ⟨_, hm⟩)
 
 /-- **An invalid `scope` value is rejected** by `#[cache]` (anything but `"global"` / `"thread"`). -/
-theorem invalid_scope_rejected (oc : Bool) (l : AttrList) {v : AttrVal}
-    (hmem : ("scope", v) ∈ l) (hv : validScope v = false) : compiles (parse .sync oc l) = false := by
-  obtain ⟨e, he⟩ := parseLoop_error_of_mem .sync oc (n := "scope") (v := v)
-    (fun st => by obtain ⟨m, hm⟩ := stepAttr_scope_invalid oc st hv; exact ⟨_, hm⟩) l Parsed.default hmem
-  simp [parse, he, compiles]
+theorem invalid_scope_rejected (l : AttrList) {v : AttrVal}
+    (hmem : ("scope", v) ∈ l) (hv : validScope v = false) : compiles (parse .sync l) = false :=
+  rejected_of_step .sync l hmem (fun st => by obtain ⟨m, hm⟩ := stepAttr_scope_invalid st hv; exact ⟨_, hm⟩)
 
 /-- `#[cache_async]` has no `scope` attribute: any `scope = …` is rejected as an unknown attribute. -/
-theorem async_scope_rejected (oc : Bool) (l : AttrList) {v : AttrVal} (hmem : ("scope", v) ∈ l) :
-    compiles (parse .async oc l) = false :=
-  unknown_name_rejected .async oc l hmem (by decide)
+theorem async_scope_rejected (l : AttrList) {v : AttrVal} (hmem : ("scope", v) ∈ l) :
+    compiles (parse .async l) = false :=
+  unknown_name_rejected .async l hmem (by decide)
 
-/-- **An invalid `limit` is rejected**: if the effective (last) `limit` is not a non-negative integer literal
-    below `2^64`, compilation fails. -/
-theorem invalid_limit_rejected (k : Kind) (oc : Bool) (l : AttrList) {v : AttrVal}
-    (hlast : lastVal "limit" l = some v) (hv : validLimit v = false) : compiles (parse k oc l) = false := by
-  cases hp : parse k oc l with
-  | error e => rfl
-  | ok p =>
-    have := parseLoop_limit (k := k) (oc := oc) (l := l) (st := Parsed.default) (p := p) hp
-    rw [hlast] at this
-    simp [compiles, this, parseLimit_invalid hv]
+/-- **An invalid `limit` is rejected**: ANY occurrence of `limit` whose value is not a non-negative integer
+    literal below `2^64` fails the compilation, even if a later `limit = …` is valid. -/
+theorem invalid_limit_rejected (k : Kind) (l : AttrList) {v : AttrVal}
+    (hmem : ("limit", v) ∈ l) (hv : validLimit v = false) : compiles (parse k l) = false :=
+  rejected_of_step k l hmem (fun st => stepAttr_limit_invalid k st hv)
 
-/-- **An invalid `ttl` is rejected** (spliced `compile_error!`, or the `.expect` panic for an integer literal
-    that is negative or does not fit in `u64`). -/
-theorem invalid_ttl_rejected (k : Kind) (oc : Bool) (l : AttrList) {v : AttrVal}
-    (hlast : lastVal "ttl" l = some v) (hv : validTtl v = false) : compiles (parse k oc l) = false := by
-  cases hp : parse k oc l with
-  | error e => rfl
-  | ok p =>
-    have := parseLoop_ttl (k := k) (oc := oc) (l := l) (st := Parsed.default) (p := p) hp
-    rw [hlast] at this
-    simp [compiles, parseTtl_invalid hv _ this]
+/-- **An invalid `ttl` is rejected**, anywhere (`Err`, or the `.expect` panic for an integer literal that is
+    negative or does not fit in `u64`). -/
+theorem invalid_ttl_rejected (k : Kind) (l : AttrList) {v : AttrVal}
+    (hmem : ("ttl", v) ∈ l) (hv : validTtl v = false) : compiles (parse k l) = false :=
+  rejected_of_step k l hmem (fun st => stepAttr_ttl_invalid k st hv)
 
-/-- **An invalid `max_memory` is rejected** (macro crate built with overflow checks, the default for the `dev`
-    profile): a string that is not `[+]digits(unit)^j`, a number that does not fit in `usize` before or after
-    the multiplication, a negative or oversized integer literal, or any other kind of expression. -/
+/-- **An invalid `max_memory` is rejected**, anywhere and whatever the build profile: a string that is not
+    `[+]digits(unit)^j`, a number that does not fit in `usize` before or after the multiplication, a negative
+    or oversized integer literal, or any other kind of expression. -/
 theorem invalid_max_memory_rejected (k : Kind) (l : AttrList) {v : AttrVal}
-    (hlast : lastVal "max_memory" l = some v) (hv : badMaxMemory v = true) : compiles (parse k true l) = false := by
-  cases hp : parse k true l with
-  | error e => rfl
+    (hmem : ("max_memory", v) ∈ l) (hv : badMaxMemory v = true) : compiles (parse k l) = false :=
+  rejected_of_step k l hmem (fun st => stepAttr_maxMemory_invalid k st hv)
+
+/-- **An invalid `frequency_weight` is rejected**, anywhere: a float literal that is negative, zero, rounds to
+    zero or to infinity, a negative or oversized integer literal, or any other kind of expression. -/
+theorem invalid_frequency_weight_rejected (k : Kind) (l : AttrList) {v : AttrVal}
+    (hmem : ("frequency_weight", v) ∈ l) (hv : badFrequencyWeight v = true) : compiles (parse k l) = false :=
+  rejected_of_step k l hmem (fun st => stepAttr_frequencyWeight_invalid k st hv)
+
+/-- T2 in one statement: exactly the predicate `mustRejectAttr` evaluated by monitor M1 of `attrs_diff`. -/
+theorem invalid_rejected (k : Kind) (l : AttrList) {n : String} {v : AttrVal} (hmem : (n, v) ∈ l)
+    (h : mustRejectAttr k n v = true) : compiles (parse k l) = false := by
+  unfold mustRejectAttr at h
+  split at h
+  · rename_i hn
+    exact unknown_name_rejected k l hmem (by simpa using hn)
+  split at h
+  · subst n; exact invalid_limit_rejected k l hmem (by simpa using h)
+  split at h
+  · subst n; exact invalid_policy_rejected k l hmem (by simpa using h)
+  split at h
+  · subst n; exact invalid_ttl_rejected k l hmem (by simpa using h)
+  split at h
+  · subst n
+    cases k with
+    | async => exact async_scope_rejected l hmem
+    | sync => exact invalid_scope_rejected l hmem (by simpa using h)
+  split at h
+  · subst n; exact invalid_max_memory_rejected k l hmem h
+  split at h
+  · subst n; exact invalid_frequency_weight_rejected k l hmem h
+  · simp at h
+
+/-- **Sizes that overflow are rejected** (commit 1b1b026; the model has no overflow-check parameter any
+    more because nothing depends on it): whenever the last factor `n · 1024^e` of a `[+]n(unit)^j` string does
+    not fit in `usize`, the list does not compile. -/
+theorem max_memory_overflow_rejected (k : Kind) (l : AttrList) {s : String} {n e : Nat}
+    (hmem : ("max_memory", .strLit s) ∈ l) (hs : mmLenient s = some (n, e)) (hov : usizeBound ≤ n * 1024 ^ e) :
+    compiles (parse k l) = false :=
+  invalid_max_memory_rejected k l hmem (by simp [badMaxMemory, hs, hov])
+
+/-- Nothing is left to spliced `compile_error!` tokens: a list compiles exactly when the parser returns `Ok`. -/
+theorem compiles_iff_ok (k : Kind) (l : AttrList) : compiles (parse k l) = true ↔ ∃ p, parse k l = .ok p := by
+  cases hp : parse k l with
+  | error e => simp [compiles]
   | ok p =>
-    have := parseLoop_maxMemory (k := k) (oc := true) (l := l) (st := Parsed.default) (p := p) hp
-    rw [hlast] at this
-    simp [compiles, parseMaxMemory_bad hv rfl _ this]
+    obtain ⟨h1, h2, h3, h4⟩ := parse_ok_fields hp
+    simp [compiles, h1, h2, h3, h4]
 
-/-- T2 in one statement. -/
-theorem invalid_rejected (k : Kind) (l : AttrList)
-    (h : (∃ n v, (n, v) ∈ l ∧ (knownNames k).contains n = false) ∨
-         (∃ v, ("policy", v) ∈ l ∧ validPolicy v = false) ∨
-         (∃ v, ("scope", v) ∈ l ∧ (k = .async ∨ validScope v = false)) ∨
-         (∃ v, lastVal "limit" l = some v ∧ validLimit v = false) ∨
-         (∃ v, lastVal "ttl" l = some v ∧ validTtl v = false) ∨
-         (∃ v, lastVal "max_memory" l = some v ∧ badMaxMemory v = true)) :
-    compiles (parse k true l) = false := by
-  rcases h with ⟨n, v, hm, hn⟩ | ⟨v, hm, hv⟩ | ⟨v, hm, hv⟩ | ⟨v, hl, hv⟩ | ⟨v, hl, hv⟩ | ⟨v, hl, hv⟩
-  · exact unknown_name_rejected k true l hm hn
-  · exact invalid_policy_rejected k true l hm hv
-  · cases k with
-    | async => exact async_scope_rejected true l hm
-    | sync =>
-      rcases hv with hv | hv
-      · cases hv
-      · exact invalid_scope_rejected true l hm hv
-  · exact invalid_limit_rejected k true l hl hv
-  · exact invalid_ttl_rejected k true l hl hv
-  · exact invalid_max_memory_rejected k l hl hv
-
-/-- Whatever compiles carries the `limit` written last (no valid list needed). -/
-theorem accepted_limit (k : Kind) (oc : Bool) (l : AttrList) {p : Parsed} (hp : parse k oc l = .ok p)
-    (hok : p.limit.isOk = true) : p.limit = .ok (meaning k l).limit := by
-  have := parseLoop_limit (k := k) (oc := oc) (l := l) (st := Parsed.default) (p := p) hp
+/-- Whatever is accepted carries the `limit` written last (no valid list needed). -/
+theorem accepted_limit (k : Kind) (l : AttrList) {p : Parsed} (hp : parse k l = .ok p) :
+    p.limit = .ok (meaning k l).limit := by
+  have := parseLoop_limit (k := k) (l := l) (st := Parsed.default) (p := p) hp
   cases hl : lastVal "limit" l with
   | none => simp only [hl] at this; simp [this, meaning, hl, natOf, Parsed.default]
   | some v =>
     simp only [hl] at this
     by_cases hv : validLimit v = true
-    · rw [this, parseLimit_of_valid hv]; simp [meaning, hl]
-    · have := parseLimit_invalid (v := v) (by simpa using hv)
-      simp_all
+    · rw [← this.1, parseLimit_of_valid hv]; simp [meaning, hl]
+    · have h' := parseLimit_invalid (v := v) (by simpa using hv)
+      rw [this.1, this.2] at h'; cases h'
 
-/-- Whatever compiles carries the `ttl` written last. -/
-theorem accepted_ttl (k : Kind) (oc : Bool) (l : AttrList) {p : Parsed} (hp : parse k oc l = .ok p)
-    (hok : p.ttl.isOk = true) : p.ttl = .ok (meaning k l).ttl := by
-  have := parseLoop_ttl (k := k) (oc := oc) (l := l) (st := Parsed.default) (p := p) hp
+/-- Whatever is accepted carries the `ttl` written last. -/
+theorem accepted_ttl (k : Kind) (l : AttrList) {p : Parsed} (hp : parse k l = .ok p) :
+    p.ttl = .ok (meaning k l).ttl := by
+  have := parseLoop_ttl (k := k) (l := l) (st := Parsed.default) (p := p) hp
   cases hl : lastVal "ttl" l with
   | none => simp only [hl] at this; simp [this, meaning, hl, natOf, Parsed.default]
   | some v =>
     simp only [hl] at this
     by_cases hv : validTtl v = true
-    · rw [parseTtl_of_valid hv] at this
-      simp at this
-      simp [← this, meaning, hl]
-    · have := parseTtl_invalid (v := v) (by simpa using hv) _ this
-      simp_all
+    · have h1 := this.1
+      rw [parseTtl_of_valid hv] at h1
+      simp at h1
+      simp [← h1, meaning, hl]
+    · have h' := parseTtl_invalid (v := v) (by simpa using hv) _ this.1
+      rw [this.2] at h'; cases h'
 
-/-- Whatever compiles (overflow checks on) with a `max_memory` STRING carries `n · 1024^k` bytes, where the
-    string reads `[+] n (unit)^j` and `k` is the exponent of the unit — nothing else is ever accepted. -/
-theorem accepted_max_memory (k : Kind) (l : AttrList) {p : Parsed} (hp : parse k true l = .ok p) {s : String}
-    (hlast : lastVal "max_memory" l = some (.strLit s)) (hok : p.maxMemory.isOk = true) :
+/-- Whatever is accepted with a `max_memory` STRING carries `n · 1024^k` bytes, where the string reads
+    `[+] n (unit)^j` and `k` is the exponent of the unit — nothing else is ever accepted. -/
+theorem accepted_max_memory (k : Kind) (l : AttrList) {p : Parsed} (hp : parse k l = .ok p) {s : String}
+    (hlast : lastVal "max_memory" l = some (.strLit s)) :
     ∃ n e, mmLenient s = some (n, e) ∧ n * 1024 ^ e < usizeBound ∧ p.maxMemory = .ok (some (n * 1024 ^ e)) := by
-  have := parseLoop_maxMemory (k := k) (oc := true) (l := l) (st := Parsed.default) (p := p) hp
+  have := parseLoop_maxMemory (k := k) (l := l) (st := Parsed.default) (p := p) hp
   rw [hlast] at this
-  simp only [parseMaxMemory, parseMaxMemoryStr] at this
+  obtain ⟨h1, hok⟩ := this
+  simp only [parseMaxMemory, parseMaxMemoryStr] at h1
+  have h1 := Except.ok.inj h1
   unfold mmLenient
   cases hscan : scanMM (s.toList.map Char.toUpper) with
   | none =>
-    obtain ⟨e, he⟩ := parseMaxMemoryUpper_of_scan_none true hscan
-    rw [he] at this
-    have h' := Except.ok.inj this
-    rw [← h'] at hok; simp [Spliced.isOk] at hok
+    obtain ⟨e, he⟩ := parseMaxMemoryUpper_of_scan_none hscan
+    rw [he] at h1; rw [← h1] at hok; simp [Spliced.isOk] at hok
   | some r =>
     obtain ⟨sg, n, e, j⟩ := r
     by_cases hn : n < usizeBound
-    · rw [parseMaxMemoryUpper_of_scan true hscan hn] at this
+    · rw [parseMaxMemoryUpper_of_scan hscan hn] at h1
       by_cases hlt : n * 1024 ^ e < usizeBound
-      · rw [mulUnit_of_lt true hlt] at this
-        simp [Except.map] at this
-        exact ⟨n, e, by simp [hn], hlt, this.symm⟩
-      · simp [mulUnit, hlt, Except.map] at this
-    · obtain ⟨e', he⟩ := parseMaxMemoryUpper_of_scan_big true hscan (by omega)
-      rw [he] at this
-      have h' := Except.ok.inj this
-      rw [← h'] at hok; simp [Spliced.isOk] at hok
+      · rw [mulUnit_of_lt hlt] at h1
+        exact ⟨n, e, by simp [hn], hlt, h1.symm⟩
+      · rw [mulUnit_of_ge (Nat.le_of_not_lt hlt)] at h1
+        rw [← h1] at hok; simp [Spliced.isOk] at hok
+    · obtain ⟨e', he⟩ := parseMaxMemoryUpper_of_scan_big hscan (by omega)
+      rw [he] at h1; rw [← h1] at hok; simp [Spliced.isOk] at hok
 
 /-! ### T3 — the textual `None` test -/
 
 /-- `has_max_memory` (the test `!tokens.to_string().contains("None")`) is false exactly when the field holds
-    the default `None` tokens: never for `Some(<n>usize)`, whatever the digits of `n`, and never for a
-    `compile_error!` message of the parser. -/
+    the default `None` tokens: never for `Some(<n>usize)`, whatever the digits of `n` (and never for a
+    `compile_error!` message of the parser, which the repaired parser no longer stores anyway). -/
 theorem hasMaxMemory_eq_false_iff (k : Kind) (p : Parsed) : hasMaxMemory k p = false ↔ p.maxMemory = .ok none := by
   unfold hasMaxMemory
   cases hm : p.maxMemory with
@@ -263,15 +271,15 @@ theorem meaning_max_memory_units (k : Kind) (l : AttrList) (n : Nat) {e : Nat} (
   simp only [meaning, hlast, memOf]
   exact mmStrict_digits_unit n he unit hu h
 
-/-- … and that is what the parser stores (`Some(<n·1024^e>usize)`), with or without overflow checks. -/
-theorem parse_max_memory_units (k : Kind) (oc : Bool) (n : Nat) {e : Nat} (he : e ≤ 3) (unit : List Char)
+/-- … and that is what the parser stores (`Some(<n·1024^e>usize)`). -/
+theorem parse_max_memory_units (k : Kind) (n : Nat) {e : Nat} (he : e ≤ 3) (unit : List Char)
     (hu : unit.map Char.toUpper = unitStr e) (h : n * 1024 ^ e < usizeBound) :
-    parse k oc [("max_memory", .strLit (String.ofList (Nat.toDigits 10 n ++ unit)))] =
+    parse k [("max_memory", .strLit (String.ofList (Nat.toDigits 10 n ++ unit)))] =
       .ok { Parsed.default with maxMemory := .ok (some (n * 1024 ^ e)) } := by
   have hs := mmStrict_digits_unit n he unit hu h
-  have hp := parseMaxMemoryStr_of_strict oc hs
+  have hp := parseMaxMemoryStr_of_strict hs
   simp only [String.toList_ofList] at hp
-  simp [parse, parseLoop, stepAttr, liftPanic, parseMaxMemory, hp]
+  simp [parse, parseLoop, stepAttr, liftValue, parseMaxMemory, hp]
 
 /-! ### T5 — `Result` detection -/
 
@@ -328,7 +336,7 @@ def longSync : AttrList :=
 
 example : Valid .sync longSync := by decide
 
-example : parseSync true longSync = .ok
+example : parseSync longSync = .ok
     { limit := .ok (some 100), policy := "tlru", ttl := .ok (some 60), scope := .thread, name := some "users",
       maxMemory := .ok (some (12 * 1024 * 1024)), tags := ["a", "b"], events := [], dependencies := ["db"],
       invalidateOn := some ⟨false, ["crate", "is_stale"]⟩, cacheIf := some ⟨false, ["ok"]⟩,
@@ -340,58 +348,70 @@ example : (meaning .sync longSync).toCfg .sync =
 
 /-- the same list is NOT valid for `#[cache_async]` (it has `scope`) and is rejected there -/
 example : ¬ Valid .async longSync := by decide
-example : parseAsync true longSync = .error (.parserErr (msgUnknown .async "scope")) := by decide
+example : parseAsync longSync = .error (.parserErr (msgUnknown .async "scope")) := by decide
 
 /-- the empty list: all defaults, plain insert -/
-example : parseSync true [] = .ok Parsed.default ∧ parseAsync true [] = .ok Parsed.default ∧
+example : parseSync [] = .ok Parsed.default ∧ parseAsync [] = .ok Parsed.default ∧
     hasMaxMemory .sync Parsed.default = false := by decide
 
 /-- rejection classes -/
-example : parseSync true [("limits", .intLit false 3 "")] = .error (.parserErr (msgUnknown .sync "limits")) := by decide
-example : parseSync true [("policy", .strLit "LRU")] = .error (.parserErr msgPolicyInvalid) := by decide
-example : parseSync true [("scope", .strLit "process")] = .error (.parserErr msgScopeInvalid) := by decide
-example : compiles (parseSync true [("limit", .intLit true 1 "")]) = false := by decide      -- `limit = -1`
-example : compiles (parseSync true [("limit", .strLit "3")]) = false := by decide            -- `limit = "3"`
-example : compiles (parseAsync true [("ttl", .floatLit false 15 (-1) "")]) = false := by decide  -- `ttl = 1.5`
-example : parseSync true [("ttl", .intLit false (2 ^ 64) "")] =
+example : parseSync [("limits", .intLit false 3 "")] = .error (.parserErr (msgUnknown .sync "limits")) := by decide
+example : parseSync [("policy", .strLit "LRU")] = .error (.parserErr msgPolicyInvalid) := by decide
+example : parseSync [("scope", .strLit "process")] = .error (.parserErr msgScopeInvalid) := by decide
+example : parseSync [("limit", .intLit true 1 "")] = .error (.parserErr CE.limitRange.msg) := by decide  -- `limit = -1`
+example : parseSync [("limit", .strLit "3")] = .error (.parserErr CE.limitLit.msg) := by decide          -- `limit = "3"`
+example : parseAsync [("ttl", .floatLit false 15 (-1) "")] = .error (.parserErr CE.ttlLit.msg) := by decide  -- `ttl = 1.5`
+example : parseSync [("ttl", .intLit false (2 ^ 64) "")] =
     .error (.panics "ttl must be a positive integer (seconds)") := by decide
-example : compiles (parseSync true [("max_memory", .strLit "12XB")]) = false ∧
-    compiles (parseSync true [("max_memory", .strLit "MB")]) = false ∧
-    compiles (parseSync true [("max_memory", .strLit "1.5MB")]) = false ∧
-    compiles (parseSync true [("max_memory", .strLit " 5MB")]) = false ∧
-    compiles (parseSync true [("max_memory", .strLit "1KBGB")]) = false ∧
-    compiles (parseSync true [("max_memory", .boolLit true)]) = false := by decide
-example : compiles (parseSync true [("frequency_weight", .floatLit false 0 (-1) "")]) = false ∧   -- `0.0`
-    compiles (parseSync true [("frequency_weight", .floatLit true 10 (-1) "")]) = false ∧          -- `-1.0`
-    compiles (parseSync true [("frequency_weight", .floatLit false 1 (-400) "")]) = false ∧        -- `1e-400` rounds to 0.0
-    compiles (parseSync true [("frequency_weight", .floatLit false 1 400 "")]) = false := by decide -- `1e400` = inf: quote! panics
-example : compiles (parseSync true [("tags", .array [.str "a", .other])]) = false := by decide
+example : compiles (parseSync [("max_memory", .strLit "12XB")]) = false ∧
+    compiles (parseSync [("max_memory", .strLit "MB")]) = false ∧
+    compiles (parseSync [("max_memory", .strLit "1.5MB")]) = false ∧
+    compiles (parseSync [("max_memory", .strLit " 5MB")]) = false ∧
+    compiles (parseSync [("max_memory", .strLit "1KBGB")]) = false ∧
+    compiles (parseSync [("max_memory", .boolLit true)]) = false := by decide
+example : compiles (parseSync [("frequency_weight", .floatLit false 0 (-1) "")]) = false ∧   -- `0.0`
+    compiles (parseSync [("frequency_weight", .floatLit true 10 (-1) "")]) = false ∧          -- `-1.0`
+    compiles (parseSync [("frequency_weight", .floatLit false 1 (-400) "")]) = false ∧        -- `1e-400` rounds to 0.0
+    compiles (parseSync [("frequency_weight", .floatLit false 1 400 "")]) = false := by decide -- `1e400` = inf: quote! panics
+example : compiles (parseSync [("tags", .array [.str "a", .other])]) = false := by decide
 
 /-- observed parser behaviour outside the documented forms, reproduced (not alarmed) -/
-example : parseSync true [("max_memory", .strLit "1GBGB")] =
+example : parseSync [("max_memory", .strLit "1GBGB")] =
     .ok { Parsed.default with maxMemory := .ok (some (1024 ^ 3)) } := by decide
-example : parseSync true [("max_memory", .strLit "+5kb")] =
+example : parseSync [("max_memory", .strLit "+5kb")] =
     .ok { Parsed.default with maxMemory := .ok (some 5120) } := by decide
-example : parseSync true [("name", .strLit "a"), ("name", .intLit false 5 "")] = .ok Parsed.default := by decide
-example : parseSync true [("ttl", .intLit false 1 ""), ("ttl", .intLit false 2 "")] =
+example : parseSync [("name", .strLit "a"), ("name", .intLit false 5 "")] = .ok Parsed.default := by decide
+example : parseSync [("ttl", .intLit false 1 ""), ("ttl", .intLit false 2 "")] =
     .ok { Parsed.default with ttl := .ok (some 2) } := by decide
-example : parseSync true [("frequency_weight", .intLit false 0 "")] =
+example : parseSync [("frequency_weight", .intLit false 0 "")] =
     .ok { Parsed.default with frequencyWeight := .ok (some ⟨0, 0⟩) } := by decide
 
-/-- FINDING: an invalid value is silently dropped when the attribute is written again —
-    `#[cache(limit = "x", limit = 3)]` and `#[cache(max_memory = true, ttl = f(), ttl = 5, max_memory = "1KB")]`
-    compile (confirmed on the real macros). -/
-theorem overridden_invalid_value_accepted :
-    compiles (parseSync true [("limit", .strLit "x"), ("limit", .intLit false 3 "")]) = true ∧
-    compiles (parseSync true [("max_memory", .boolLit true), ("ttl", .otherExpr), ("ttl", .intLit false 5 ""),
-      ("max_memory", .strLit "1KB")]) = true := by decide
+/-- REGRESSION WITNESS for finding F9 (fixed by 82aef8c).  `#[cache(limit = "x", limit = 2)]` and
+    `#[cache(max_memory = true, ttl = f(), ttl = 5, max_memory = "1KB")]`: the parser before the repair let them
+    compile (the invalid value was silently dropped; confirmed on the real macros at the time), the repaired
+    parser returns `Err` at the first invalid value. -/
+example :
+    compiles (Legacy.parse .sync true [("limit", .strLit "x"), ("limit", .intLit false 2 "")]) = true ∧
+    parseSync [("limit", .strLit "x"), ("limit", .intLit false 2 "")] = .error (.parserErr CE.limitLit.msg) ∧
+    compiles (Legacy.parse .sync true [("max_memory", .boolLit true), ("ttl", .otherExpr), ("ttl", .intLit false 5 ""),
+      ("max_memory", .strLit "1KB")]) = true ∧
+    parseSync [("max_memory", .boolLit true), ("ttl", .otherExpr), ("ttl", .intLit false 5 ""),
+      ("max_memory", .strLit "1KB")] = .error (.parserErr CE.mmLit.msg) := by decide
 
-/-- FINDING (release profile): without overflow checks the product wraps — `"17179869184GB"` (= 2^64 bytes)
-    becomes `Some(0)`; with overflow checks it is a panic, i.e. a compile failure. -/
-theorem max_memory_overflow_wraps_without_overflow_checks :
-    parseSync false [("max_memory", .strLit "17179869184GB")] = .ok { Parsed.default with maxMemory := .ok (some 0) } ∧
-    parseSync true [("max_memory", .strLit "17179869184GB")] = .error (.panics "attempt to multiply with overflow") := by
+/-- REGRESSION WITNESS for finding F10 (fixed by 1b1b026).  `max_memory = "17179869184GB"` (= 2^64 bytes): the
+    old arithmetic wrapped to `Some(0)` without overflow checks (release profile) and panicked with them; the
+    repaired parser refuses it with `compile_error!("max_memory is too large")` in every build. -/
+example :
+    Legacy.parse .sync false [("max_memory", .strLit "17179869184GB")] =
+      .ok { Parsed.default with maxMemory := .ok (some 0) } ∧
+    Legacy.parse .sync true [("max_memory", .strLit "17179869184GB")] =
+      .error (.panics "attempt to multiply with overflow") ∧
+    parseSync [("max_memory", .strLit "17179869184GB")] = .error (.parserErr "max_memory is too large") ∧
+    parseAsync [("max_memory", .strLit "18014398509481984kb")] = .error (.parserErr "max_memory is too large") := by
   decide
+
+/-- on lists the old parser already handled without storing error tokens nothing changed -/
+example : Legacy.parse .sync true longSync = parseSync longSync := by decide
 
 end Examples
 
